@@ -160,4 +160,11 @@ Section Adc8Forms.
     intros Hs0 Him Ec. unfold instr_adc_al_imm8. rewrite Ec. rewrite (bind_ok _ _ _ _ _ (dbg_code_ok c s _ eq_refl)).
     exact (adc_rm8_imm8_refines Hs0 Him).
   Qed.
+
+  Theorem adc_rm8_imm8_82_refines :
+    rm8_shape i 0 -> imm8_shape i -> i_code i = C_Adc_rm8_imm8_82 -> rmw8_refines i s ADC (instr_adc_rm8_imm8_82 c i s).
+  Proof.
+    intros Hs0 Him Ec. unfold instr_adc_rm8_imm8_82. rewrite Ec. rewrite (bind_ok _ _ _ _ _ (dbg_code_ok c s _ eq_refl)).
+    exact (adc_rm8_imm8_refines Hs0 Him).
+  Qed.
 End Adc8Forms.
